@@ -25,11 +25,45 @@ def call_name(call):
 
 
 def is_call(x, *suffixes):
-    """x is a call whose dotted callee equals or ends with .<suffix>"""
+    """x is a call whose dotted callee equals or ends with .<suffix> -- as written, or with a local receiver replaced by the
+    definition that reaches the call (`g = self.grid; g.tile(..)` is a call of `self.grid.tile`)"""
     if not isinstance(x, ast.Call):
         return False
     n = call_name(x) or ''
-    return any(n == s or n.endswith('.' + s) for s in suffixes)
+    if any(n == s or n.endswith('.' + s) for s in suffixes):
+        return True
+    if not any('.' in s for s in suffixes):
+        return False            # a bare method name matches whatever the receiver is: already decided above
+    f = x.func
+    root = f
+    while isinstance(root, ast.Attribute):
+        root = root.value
+    if not (isinstance(f, ast.Attribute) and isinstance(root, ast.Name)) or root.id in ('self', 'cls'):
+        return False
+    n2 = _closed_callee(x)
+    return n2 is not None and any(n2 == s or n2.endswith('.' + s) for s in suffixes)
+
+
+def _closed_callee(call):
+    """dotted callee of a call with the receiver in closed form (cached on the node); None if it is the same as written"""
+    c = getattr(call, '_closed_callee', False)
+    if c is not False:
+        return c
+    out = None
+    fn = _fn_of(call)
+    if fn is not None:
+        try:
+            recv = fn.canon.expr(call.func.value)
+            d = dotted(recv)
+            if d and d != dotted(call.func.value):
+                out = d + '.' + call.func.attr
+        except Exception:       # noqa
+            out = None
+    try:
+        call._closed_callee = out
+    except Exception:       # noqa
+        pass
+    return out
 
 
 def simple_name(call):
